@@ -2,6 +2,7 @@ package xarun
 
 import (
 	"context"
+	"sort"
 	"database/sql/driver"
 	"encoding/hex"
 	gosql "database/sql"
@@ -50,6 +51,7 @@ type Op struct {
 	NStmts   int    `json:"nstmts"`
 	Reuse    bool   `json:"reuse"` // auto: run on the connection of op Target, taken back out of the pool
 	Slow     bool   `json:"slow"`  // auto: the business statement outlasts xa_branch_execution_timeout
+	Expired  bool   `json:"expired"` // check: one pass of the two-phase timeout checker; Expired: the hold time is over (else: 1 h)
 	Db       bool   `json:"db"`    // auto (fresh): through db.ExecContext, i.e. with database/sql's retry on
 	// driver.ErrBadConn; the two ops that follow are K="retry" and stand for the 2nd and 3rd attempt
 	// retire (K="retire"): the pool retires the connection of op Target (SetMaxIdleConns(0)): driver Close
@@ -76,6 +78,7 @@ type OpResult struct {
 	EvFrom int    `json:"ev_from"`      // events [EvFrom, EvTo) were produced by this op
 	EvTo   int    `json:"ev_to"`
 	ReqID  string `json:"req_id,omitempty"` // p2: xa_id of the request's (xid, branch id)
+	Closed []int  `json:"closed,omitempty"` // check: sessions the pass closed
 }
 
 type Result struct {
@@ -227,6 +230,26 @@ func runScenario(sc Scenario) Result {
 			continue
 		}
 		switch op.K {
+		case "check":
+			open0 := w.openSet()
+			hold := time.Hour
+			if op.Expired {
+				hold = time.Nanosecond
+			}
+			cl, det := hutil.Guard(5*time.Second, func() error {
+				if !seatasql.VerifXATwoPhaseCheck(hold) {
+					return errors.New("no XA resource manager")
+				}
+				return nil
+			})
+			r = OpResult{Class: cl, Detail: clip(det), Closed: []int{}}
+			open1 := w.openSet()
+			for c := range open0 {
+				if !open1[c] {
+					r.Closed = append(r.Closed, c)
+				}
+			}
+			sort.Ints(r.Closed)
 		case "retire":
 			conn := opConn[op.Target]
 			if conn == nil {
@@ -699,6 +722,16 @@ func oracle(sc *Scenario, r *Result) (fails []string, legal bool) {
 			continue
 		}
 		switch op.K {
+		case "check":
+			// a held connection whose branch is PREPARED is not force-closed before the hold time is over: the
+			// coordinator decides (and phase two finds the session that prepared the branch)
+			if !op.Expired {
+				for _, c := range o.Closed {
+					if id, ok := boundAt(r.Events[:o.EvFrom], c, sc.Version); ok {
+						bad("op %d: the two-phase timeout checker closed session %d whose branch '%s' is PREPARED, within the hold time", i, c, id)
+					}
+				}
+			}
 		case "explicit":
 			id := o.ID
 			if o.Class == "ok" && op.Commit && !(id != "" && prefixPrepared(r.Events, id)) {
@@ -817,4 +850,31 @@ func Init(repo string) {
 		client.InitPath(repo + "/testdata/conf/seatago.yml")
 		seatasql.RegisterVerifDrivers("", "verif-xa", fakeDriver{})
 	})
+}
+
+// boundAt: the branch that was PREPARED on session c and is not yet finished, by the events so far
+func boundAt(evs []Event, c int, version string) (string, bool) {
+	st := map[string]int{}
+	on := map[string]int{}
+	for _, ev := range evs {
+		if ev.K != "sql" || ev.Res != "ok" {
+			continue
+		}
+		switch ev.Cmd {
+		case "START":
+			st[ev.ID], on[ev.ID] = 1, ev.Conn
+		case "END":
+			st[ev.ID] = 2
+		case "PREPARE":
+			st[ev.ID] = 3
+		case "COMMIT", "ROLLBACK":
+			st[ev.ID] = 4
+		}
+	}
+	for id, s := range st {
+		if s == 3 && on[id] == c {
+			return id, true
+		}
+	}
+	return "", false
 }
